@@ -56,6 +56,9 @@ def jobs(tier):
     for sh in ("nested+late", "cfglist+late"):
         for leaf in ["int09", "bytes", "secure-aes", "list-bytes", "dict-typed"]:
             out.append({"name": "%s/%s/own" % (sh, leaf), "shape": sh, "leaf": leaf, "depth": b["depth"], "tier": tier, "keyfile": "own"})
+    for leaf in ["int09", "secure-aes", "list-int", "dict-typed", "str-norm"]:        # bound variables that exist but are empty
+        out.append({"name": "nested+env/%s/own" % leaf, "shape": "nested+env", "leaf": leaf, "depth": b["depth"], "tier": tier, "keyfile": "own"})
+    out.append({"name": "with-include", "kind": "include", "tier": tier})
     return out + deep_jobs(tier)
 
 
@@ -214,6 +217,59 @@ def run_deep(job, ctx):
                 ctx.case(("deep", itemkind, wrap, n, route, row), "deep:%s:%s" % (fmt, "ok" if ok else "bad"), bool(val))
             ctx.traces += 1
     ctx.sample({"deep": job.get("name") or job.get("job"), "populations": len(_deep_values(wrap))})
+
+
+def run_include(job, ctx):
+    """a saved configuration that names an include file: re-loading processes the include again; when the included file
+    holds (part of) the same values, at depth 1, 2 and 3, the round trip must reproduce the configuration exactly"""
+    import cincoconfig as cc
+    rows = ROWS if job["tier"] == "thorough" else QUICK_ROWS
+    only = job.get("only")
+    values = {"a": 7, "sub": {"c": "cv", "w": 3, "deep": {"e": "ev", "f": 4, "l": [1, 2], "more": {"g": "gv", "h": 5}}}}
+    partials = {
+        "depth1": {"sub": {"c": "cv"}},
+        "depth2": {"sub": {"deep": {"e": "ev"}}},
+        "depth3": {"sub": {"deep": {"more": {"g": "gv"}}}},
+        "mixed": {"a": 7, "sub": {"w": 3, "deep": {"f": 4, "more": {"h": 5}}}},
+        "empty-maps": {"sub": {"deep": {"more": {}}}},
+    }
+    for pname, partial in partials.items():
+        for fmt, opts in rows:
+            row = fmt + ("+" + ",".join("%s=%s" % kv for kv in sorted(opts.items())) if opts else "")
+            ident = [pname, row]
+            if only is not None and only != ident:
+                continue
+            s = cc.Schema()
+            s.include = cc.IncludeField(startdir=ctx.tmp)
+            s.a = cc.IntField(default=1)
+            s.sub.c = cc.StringField(default="dc")
+            s.sub.w = cc.IntField(default=1)
+            s.sub.deep.e = cc.StringField(default="de")
+            s.sub.deep.f = cc.IntField(default=1)
+            s.sub.deep.l = cc.ListField(cc.IntField())
+            s.sub.deep.more.g = cc.StringField(default="dg")
+            s.sub.deep.more.h = cc.IntField(default=1)
+            with open(os.path.join(ctx.tmp, "part.inc"), "wb") as fh:
+                fh.write(cc.ConfigFormat.get(fmt, **opts).dumps(None, partial))
+            cfg = s()
+            cfg.load_tree(dict(values, include="part.inc"))
+            want = cc.asdict(cfg)
+            case = {"kind": "include", "tier": job["tier"], "only": ident, "job": job.get("name") or job.get("job"), "name": job.get("name") or job.get("job")}
+            ctx.transitions += 1
+            try:
+                data = cfg.dumps(fmt, **opts)
+                back = s()
+                back.loads(data, fmt, **opts)
+                got = cc.asdict(back)
+            except Exception as exc:  # noqa
+                ctx.case(("include", pname, row), "include:raises", True)
+                ctx.violation("C02|include|%s|%s|raises" % (pname, fmt), "round trip of a configuration naming an include file (%s) raised %r" % (pname, exc), case)
+                continue
+            ctx.case(("include", pname, row), "include:%s" % fmt, True)
+            if V.plain(got) != V.plain(want):
+                ctx.violation("C02|include|%s|%s|differs" % (pname, fmt), "the included file holds %s; saved %s, re-loaded %s" % (partial, V.show(want, 150), V.show(got, 150)), case)
+    ctx.traces += 1
+    ctx.sample({"include": list(partials)})
 
 
 def with_virtuals(spec):
@@ -439,6 +495,10 @@ def run_job(job, ctx):
         return run_deep(single, ctx)
     if job.get("kind") == "deep":
         return run_deep(job, ctx)
+    if single and single.get("kind") == "include":
+        return run_include(single, ctx)
+    if job.get("kind") == "include":
+        return run_include(job, ctx)
     if single:
         m = Monitor(single["shape"], single["leaf"], single.get("tier", "quick"), single.get("keyfile", "own"), ctx.tmp)
         W.explore(ctx, m.spec, single["leaf"], 0, m, only=(single["hist"], single["op"]))
